@@ -124,7 +124,6 @@ def replay_cases(prop, cases, timeout=600):
     # the replay imports the package of the tree under check (REPO is /repo unless VERIF_REPO points elsewhere)
     env["PYTHONPATH"] = REPO + os.pathsep + ROOT + os.pathsep + env.get("PYTHONPATH", "")
     env["VERIF_REPLAY"] = "1"
-    env.pop("PYTHONHASHSEED", None)
     try:
         p = subprocess.run([PY, "-m", "vk.replay", prop, batch], capture_output=True, text=True, env=env,
                            timeout=timeout, cwd=ROOT)
